@@ -353,6 +353,49 @@ def validate_encoding(check_id, points, outdir: Path, jobs=8):
     return n_ok, mism, errs
 
 
+def cross_check_cvc5(items, seed, limit=12, tlimit_ms=8000):
+    """re-decide exported obligations with the cvc5 binary; returns counts (timeouts/unsupported are 'unknown')"""
+    import random
+    import shutil
+    import tempfile
+    from concurrent.futures import ThreadPoolExecutor
+
+    out = {"solver": "cvc5 (binary on PATH)", "requested": 0, "agree_unsat": 0, "unknown_or_timeout": 0, "disagreements": []}
+    exe = shutil.which("cvc5")
+    if not exe or not items:
+        out["solver"] = "cvc5 not available" if not exe else out["solver"]
+        return out
+    rnd = random.Random(seed)
+    items = list(items)
+    if len(items) > limit:
+        items = rnd.sample(items, limit)
+    out["requested"] = len(items)
+
+    def one(it):
+        cname, oname, text = it
+        with tempfile.NamedTemporaryFile("w", suffix=".smt2", delete=False) as f:
+            f.write(text)
+            fn = f.name
+        try:
+            cp = subprocess.run([exe, f"--tlimit={tlimit_ms}", fn], capture_output=True, text=True, timeout=tlimit_ms / 1000 + 10)
+            ans = cp.stdout.strip().splitlines()[0] if cp.stdout.strip() else "unknown"
+        except subprocess.TimeoutExpired:
+            ans = "unknown"
+        finally:
+            os.unlink(fn)
+        return cname, oname, ans
+
+    with ThreadPoolExecutor(max_workers=8) as ex:
+        for cname, oname, ans in ex.map(one, items):
+            if ans == "unsat":
+                out["agree_unsat"] += 1
+            elif ans == "sat":
+                out["disagreements"].append(f"{cname}/{oname}")
+            else:
+                out["unknown_or_timeout"] += 1
+    return out
+
+
 # ----------------------------------------------------------------------------- known findings
 
 
@@ -444,6 +487,7 @@ def run_check(check_id: str, tier: str, seed: int, jobs: int | None = None, only
     per_case = []
     ob_names = {}
     val_points = []
+    xcheck = []
     cex = []
     n_cex_skipped = 0
     info_lines = set()
@@ -455,8 +499,15 @@ def run_check(check_id: str, tier: str, seed: int, jobs: int | None = None, only
         for k, v in r["obligation_names"].items():
             ob_names[k] = ob_names.get(k, 0) + v
         per_case.append({"case": case["name"], "paths": r["stats"]["paths"], "obligations": r["stats"]["obligations"], "discharged": r["stats"]["discharged"], "queries": sum(r["stats"]["queries"].values()), "wall_s": round(r["wall_s"], 2), "complete": r["complete"]})
-        if r.get("sample") and len(samples) < 4:
-            samples.append({"case": case["name"], "cfg": case.get("cfg"), **r["sample"], "paths": r["path_samples"][:1]})
+        if r.get("sample"):
+            full = r["sample"].get("smt2_negated_claim") or ""
+            if r["sample"].get("verdict") == "unsat" and full:
+                xcheck.append((case["name"], r["sample"]["obligation"], full))
+            if len(samples) < 4:
+                smp = dict(r["sample"])
+                if len(full) > 6000:
+                    smp["smt2_negated_claim"] = full[:6000] + "\n; ... truncated in the evidence file"
+                samples.append({"case": case["name"], "cfg": case.get("cfg"), **smp, "paths": r["path_samples"][:1]})
         if not r["complete"] and not case.get("optional"):
             harness_errors.append(f"case {case['name']}: exploration incomplete (left={r['stats']['left']}, paths={r['stats']['paths']})")
         if r["n_errors"] and not case.get("optional"):
@@ -518,6 +569,11 @@ def run_check(check_id: str, tier: str, seed: int, jobs: int | None = None, only
     for ee in val_errs[:5]:
         harness_errors.append("encoding validation error: " + ee)
 
+    # second solver: a sample of the discharged obligations is re-decided by cvc5 from the exported SMT-LIB text
+    x_summary = cross_check_cvc5(xcheck, seed, limit=getattr(mod, "XCHECK_MAX", 12 if tier == "quick" else 40))
+    for dis in x_summary["disagreements"]:
+        harness_errors.append(f"solver disagreement (z3 unsat, cvc5 sat) on {dis}")
+
     # canaries
     can_summary = []
     for (cid, case, cn), r in zip(can_tasks, can_results):
@@ -555,6 +611,7 @@ def run_check(check_id: str, tier: str, seed: int, jobs: int | None = None, only
         "traces_validated_against_impl": n_replays + n_val_ok,
         "encoding_validation": {"points_compared_ok": n_val_ok, "points_requested": len(val_points), "mismatches": len(val_mism), "errors": len(val_errs), "what": "observables of the symbolic run evaluated at a model of the path condition vs. the same scenario on floats in a fresh interpreter with JIT enabled"},
         "counterexample_replays": n_replays,
+        "cvc5_cross_check": {k: v for k, v in x_summary.items() if k != "disagreements"} | {"disagreements": len(x_summary["disagreements"])},
         "counterexamples_not_replayed_duplicates": n_cex_skipped,
         "samples": samples or [{"note": "no obligation sample captured"}],
         "exhaustive": not harness_errors,
